@@ -3,6 +3,7 @@ import Lcapy.Model.CRat
 import Lcapy.Model.Decompose
 import Lcapy.Model.SuperSolve
 import Lcapy.Model.NoiseAlg
+import Lcapy.Model.Groups
 import Lcapy.Spec.Noise
 import Lcapy.Driver.C01
 namespace Lcapy.Driver.C03
@@ -85,6 +86,47 @@ def fmtNE (r : Option (Lcapy.Noise.NE Rat)) : String :=
   | some ⟨.amp re im, n⟩ => s!"amp:{ratToStr re}:{ratToStr im}:{n}"
   | some ⟨.rss p, n⟩ => s!"rss:{ratToStr p}:{n}"
 
+def parseForm (f : String) : Option Lcapy.Groups.Form :=
+  match f.splitOn ":" with
+  | ["kwdc"] => some .kwdc
+  | ["kwac"] => some .kwac
+  | ["kwstep"] => some .kwstep
+  | ["kws"] => some .kws
+  | ["texpr"] => some .texpr
+  | ["noise", nid] => some (.noise nid)
+  | _ => none
+
+def parseGrpLine (toks : List String) : Option Lcapy.Groups.Line :=
+  match toks with
+  | [] => none
+  | name :: rest =>
+    if (name.startsWith "V" || name.startsWith "I") then
+      match rest with
+      | n1 :: n2 :: form :: terms => do
+          let f ← parseForm form
+          let (ts, _) ← parseTerms terms
+          some (.src ⟨name, n1, n2, f, ts⟩)
+      | _ => none
+    else if name.startsWith "C" || name.startsWith "L" then
+      match rest with
+      | [n1, n2, v] => some (.react name n1 n2 v none)
+      | [n1, n2, v, ic] => (Lcapy.Netlist.parseVal ic).map (fun r => .react name n1 n2 v (some r))
+      | _ => none
+    else if name.startsWith "F" || name.startsWith "H" then
+      some (.dep name rest rest[2]?)
+    else if name.startsWith "E" || name.startsWith "G" then
+      some (.dep name rest none)
+    else some (.other name rest)
+
+def fmtKey : Lcapy.Groups.Key → String
+  | .dc => "dc" | .ac w => s!"ac:{ratToStr w}" | .transient => "transient" | .noise n => s!"noise:{n}" | .ivp => "ivp" | .time => "time"
+
+def fmtKilled : Lcapy.Groups.Killed → String
+  | .wire a b => s!"W:{a}:{b}" | .open_ a b => s!"O:{a}:{b}" | .zeroed n a b => s!"zeroed:{n}:{a}:{b}"
+  | .kept n => s!"kept:{n}" | .noIC n => s!"noic:{n}"
+
+def b01 (b : Bool) : String := if b then "1" else "0"
+
 def fmtAc (l : List (Rat × GQ)) : String :=
   "|".intercalate (l.map (fun (w, g) => s!"{ratToStr w}:{g}"))
 
@@ -140,6 +182,25 @@ def handle (toks : List String) : Option String :=
       | some d => s!"n2={ratToStr (Lcapy.Noise.totalPower d)} " ++
           " ".intercalate (d.map (fun p => s!"{p.1}:{ratToStr p.2.1}:{ratToStr p.2.2}"))
       | none => "bad-op"
+  | "grp.run" :: "||" :: rest => some <|
+      match (Lcapy.Driver.C01.splitSep rest).mapM parseGrpLine with
+      | none => "bad-op"
+      | some ls =>
+        let g := Lcapy.Groups.analysisGroups ls
+        let f := Lcapy.Groups.flags ls
+        let cl (l : List String) : String := ",".intercalate l
+        "groups " ++ ";".intercalate (g.map (fun p => s!"{fmtKey p.1}={cl p.2}")) ++
+        s!" flags has_ic={b01 f.has_ic} zeroic={b01 f.zeroic} has_s={b01 f.has_s} has_ac={b01 f.has_ac} has_dc={b01 f.has_dc} " ++
+        s!"has_transient={b01 f.has_transient} ac_count={f.ac_count} dc_count={f.dc_count} causal={b01 f.causal} reactive={b01 f.reactive} " ++
+        s!"ac={b01 f.ac} dc={b01 f.dc} time_domain={b01 f.time_domain} ivp={b01 f.ivp} independent_sources={cl f.independent_sources} " ++
+        s!"dependent_sources={cl f.dependent_sources} control_sources={cl f.control_sources} reactances={cl f.reactances} ics={cl f.ics}"
+  | "grp.kill" :: mode :: names :: "||" :: rest => some <|
+      match (Lcapy.Driver.C01.splitSep rest).mapM parseGrpLine with
+      | none => "bad-op"
+      | some ls =>
+        let args := (names.splitOn ",").filter (· ≠ "-")
+        let r := if mode = "except" then Lcapy.Groups.killExcept args ls else Lcapy.Groups.kill args ls
+        "ok " ++ " ".intercalate (r.map fmtKilled)
   | "noise.resp" :: w :: pairs :: "||" :: rest => some <|
       -- per-source complex amplitude responses H_k(jw)·a_k between node pairs, and the spec's noise power
       let prs := (pairs.splitOn ",").filterMap (fun p => match p.splitOn ":" with | [a, b] => some (a, b) | _ => none)
